@@ -38,6 +38,8 @@ pub struct Clause {
 pub struct LoopSpec {
     pub key: String,
     pub iter_name: Option<String>,
+    /// R8: iterate over `WRAP(&(EXPR))` instead of `EXPR` (dependency container -> Vec of its elements in iteration order)
+    pub wrap: Option<String>,
     pub invariants: Vec<Clause>,
     pub invariants_except_break: Vec<Clause>,
     pub ensures: Vec<Clause>,
@@ -64,6 +66,7 @@ pub struct ItemSpec {
     pub ret: Option<String>,
     pub attrs: Vec<String>,
     pub drop_derives: Vec<String>,
+    pub drop_attrs: Vec<String>,
     pub sig: Option<String>,
     pub requires: Vec<Clause>,
     pub ensures: Vec<Clause>,
@@ -182,6 +185,7 @@ pub fn parse_unit(text: &str) -> Unit {
             "@ret" => cur_item!().ret = Some(words[0].clone()),
             "@attr" => cur_item!().attrs.push(if block_t.is_empty() { rest.clone() } else { block_t.clone() }),
             "@dropderive" => cur_item!().drop_derives.extend(words.clone()),
+            "@dropattr" => cur_item!().drop_attrs.extend(words.clone()),
             "@sig" => cur_item!().sig = Some(if block_t.is_empty() { rest.clone() } else { block_t.clone() }),
             "@prop" => cur_item!().property = Some(words[0].clone()),
             "@requires" => {
@@ -198,7 +202,9 @@ pub fn parse_unit(text: &str) -> Unit {
             }
             "@loop" => {
                 ctx = Ctx::Loop;
-                cur_item!().loops.push(LoopSpec { key: words[0].clone(), iter_name: words.get(1).cloned(), ..Default::default() });
+                let wrap = words.iter().find_map(|w| w.strip_prefix("wrap=").map(|x| x.to_string()));
+                let iter_name = words.get(1).filter(|w| !w.contains('=')).cloned();
+                cur_item!().loops.push(LoopSpec { key: words[0].clone(), iter_name, wrap, ..Default::default() });
             }
             "@invariant" | "@invariant_except_break" | "@loop_ensures" | "@loop_decreases" => {
                 if !matches!(ctx, Ctx::Loop) {
@@ -219,7 +225,7 @@ pub fn parse_unit(text: &str) -> Unit {
                 let mode = words.get(0).cloned().unwrap_or_default();
                 let mut p = ProofSpec { mode: mode.clone(), text: block.clone(), ..Default::default() };
                 match mode.as_str() {
-                    "start" | "end" | "tail" => {}
+                    "start" | "end" | "tail" | "rawstart" => {}
                     "loopstart" | "loopend" => p.anchor = words.get(1).cloned().unwrap_or_default(),
                     "before" | "after" | "wrap" => {
                         let after_mode = rest[mode.len()..].to_string();
